@@ -597,7 +597,7 @@ def main_all(tier, seed):
             for c in cases:
                 f.write(json.dumps(c, separators=(",", ":")) + "\n")
         log("%d distinct cases in the union of the 20 checks" % len(cases))
-        stall = 10 if tier == "quick" else 30
+        stall = 20 if tier == "quick" else 60          # seconds without progress inside ONE case (cases take micro- to milliseconds)
         dev, _, _ = run_worker(bins["dev"], "dev", cases_path, cases, workdir, stall)
         rel, _, _ = run_worker(bins["rel"], "rel", cases_path, cases, workdir, stall)
         events = merge_builds(dev, rel)
@@ -720,7 +720,7 @@ def main():
         log("%d cases" % len(cases))
 
         # ---- implementation
-        stall = 10 if tier == "quick" else 30
+        stall = 20 if tier == "quick" else 60          # seconds without progress inside ONE case (cases take micro- to milliseconds)
         t0 = time.time()
         dev, dev_out, dev_err = run_worker(bins["dev"], "dev", cases_path, cases, workdir, stall)
         rel, rel_out, rel_err = run_worker(bins["rel"], "rel", cases_path, cases, workdir, stall)
